@@ -340,6 +340,29 @@ def bind_args(call: ast.Call, fn: FuncNode, drop_self: bool = True) -> T.Dict[st
     return out
 
 
+def call_arg(call: ast.Call, pos: int, kw: T.Union[str, T.Iterable[str]]) -> T.Optional[ast.AST]:
+    """The argument at positional index `pos` or given by (one of) the keyword name(s) `kw`; None when absent or behind a star."""
+    names = {kw} if isinstance(kw, str) else set(kw)
+    if any(isinstance(a, ast.Starred) for a in call.args[:pos + 1]):
+        return None
+    if pos < len(call.args):
+        return call.args[pos]
+    for k in call.keywords:
+        if k.arg in names:
+            return k.value
+    return None
+
+
+def canon_call(call: ast.Call, fn: FuncNode, drop_self: bool = True) -> str:
+    """`f(a, y=b)` and `f(x=a, y=b)` as one text: every argument as keyword, in signature order."""
+    try:
+        b = bind_args(call, fn, drop_self)
+    except Undecided:
+        return norm(call)
+    order = params_of(fn, drop_self) + [a.arg for a in fn.args.kwonlyargs]
+    return f'{norm(call.func)}(' + ', '.join(f'{p}={norm(b[p])}' for p in order if p in b) + ')'
+
+
 def forwards_varargs(fn: FuncNode, call: ast.Call) -> bool:
     """`def w(self, *args, **kwargs): ... prim(*args, **kwargs)`: positions are preserved."""
     va, kw = fn.args.vararg, fn.args.kwarg
@@ -399,6 +422,37 @@ class Rooting:
     def _d(self, e: ast.AST) -> T.Optional[str]:
         return dotted(self.mod, e, self.imps)
 
+    depth = 0
+
+    def _callee(self, e: ast.Call) -> T.Optional[T.Tuple[str, FuncNode, bool]]:
+        """A repository function of the same module (`f(...)`) or a method of the same class (`self.m(...)`) whose body can be read."""
+        ch = attr_chain(e.func)
+        if ch is None:
+            return None
+        if '.' not in ch and ch not in self.imps and self.mod.has_func(ch):
+            return ch, self.mod.func(ch), False
+        if ch.startswith('self.') and ch.count('.') == 1:
+            meth = ch.split('.')[1]
+            own = [q for q, f in self.mod.funcs().items() if f is self.fn]
+            cls = own[0].rsplit('.', 1)[0] if own and '.' in own[0] else None
+            if cls and self.mod.has_func(f'{cls}.{meth}'):
+                return f'{cls}.{meth}', self.mod.func(f'{cls}.{meth}'), True
+        return None
+
+    def sig(self, name: str, default: T.Tuple[str, ...]) -> T.Tuple[str, ...]:
+        """Parameter names of the rooting helper (read from its definition, wherever it lives)."""
+        if self.mod.has_func(name):
+            return tuple(params_of(self.mod.func(name), drop_self=False))
+        origin = self.imps.get(name, '')
+        if origin.startswith('mesonbuild.'):
+            try:
+                m2 = self.mod.repo.module_by_dotted(origin.rsplit('.', 1)[0])
+            except AnalysisError:
+                m2 = None
+            if m2 is not None and m2.has_func(name):
+                return tuple(params_of(m2.func(name), drop_self=False))
+        return default
+
     def need(self, e: ast.AST, busy: T.FrozenSet[str] = frozenset()) -> T.Set[Demand]:
         if isinstance(e, ast.Constant) and e.value is None:
             return set()
@@ -425,12 +479,14 @@ class Rooting:
             if d is not None and base in self.rooters and d.split('.')[0] != 'self':
                 kind = self.rooters[base]
                 if kind == 'get_destdir_path':
-                    if len(e.args) != 3 or e.keywords:
+                    a0, a1, a2 = (call_arg(e, i, k) for i, k in enumerate(self.sig('get_destdir_path', ('destdir', 'fullprefix', 'path'))))
+                    if a0 is None or a1 is None or a2 is None or len(e.args) + len(e.keywords) != 3:
                         raise Undecided(f'get_destdir_path call shape: {short(e)}')
-                    return self.destdir(e.args[0]) | self.need(e.args[1], busy)
-                if len(e.args) != 2 or e.keywords:
+                    return self.destdir(a0) | self.need(a1, busy)
+                a0, a1 = (call_arg(e, i, k) for i, k in enumerate(self.sig('destdir_join', ('d1', 'd2'))))
+                if a0 is None or a1 is None or len(e.args) + len(e.keywords) != 2:
                     raise Undecided(f'destdir_join call shape: {short(e)}')
-                return self.destdir(e.args[0])
+                return self.destdir(a0)
             if d == 'os.path.join':
                 if not e.args or e.keywords or any(isinstance(a, ast.Starred) for a in e.args):
                     raise NotRooted(e, 'os.path.join with star/keyword arguments')
@@ -441,6 +497,24 @@ class Rooting:
                 return out
             if d in PATH_KEEP and len(e.args) == 1:
                 return self.need(e.args[0], busy)
+            callee = self._callee(e)
+            if callee is not None and self.depth < 2:
+                q, cfn, drop = callee
+                sub = Rooting(self.mod, cfn, self.rooters, self.neutral)
+                sub.depth = self.depth + 1
+                rets = [st.value for st in walk_no_nested(cfn) if isinstance(st, ast.Return) and st.value is not None]
+                if not rets:
+                    raise NotRooted(e, f'`{q}` returns nothing')
+                bound = bind_args(e, cfn, drop)
+                out = set()
+                for rv in rets:
+                    for p_, k_ in sub.need(rv):
+                        if p_.startswith('<'):
+                            raise Undecided(f'{q}: returns a value rooted in its own local DESTDIR')
+                        if p_ not in bound:
+                            raise NotRooted(e, f'`{q}` needs its parameter `{p_}` to be {k_}, the call does not pass it')
+                        out |= self.need(bound[p_], busy) if k_ == 'rooted' else self.destdir(bound[p_])
+                return out
             raise NotRooted(e, f'result of `{d or short(e.func)}` is not derived from DESTDIR')
         if isinstance(e, ast.Subscript):
             if isinstance(e.value, ast.Call) and self._d(e.value.func) in PATH_SPLIT and isinstance(e.slice, ast.Constant) and e.slice.value == 0:
